@@ -35,6 +35,11 @@ def byte_decoders(ctx):
             continue
         rt = prog.types[b.locals[0]]
         if rt.get("k") == "adt" and rt["def"] in ("std::result::Result", "std::option::Option"):
+            # a function that turns bytes into index state (fills the key map / reference counts) is a loader built on
+            # a decoder, not a codec function: its totality is not "decoding arbitrary bytes"
+            names = sem_set(ctx.may.all_events(b.path))
+            if names & {"INDEX_MUTATE", "REFCNT_MUTATE"}:
+                continue
             out.append(b)
     return out
 
